@@ -17,3 +17,4 @@ CONSTANTS
   BIGSET = FALSE
   SAMPLE = 31
   STREAMLEN = 0
+  TWOCOLOURS = FALSE
